@@ -1117,3 +1117,66 @@ Proof.
   - unfold valid_expect. rewrite !orb_true_iff, !String.eqb_eq. tauto.
   - unfold valid_expect. rewrite !orb_true_iff, !String.eqb_eq. tauto.
 Qed.
+
+(* ================================================================== *)
+(* Order of the inner join's rows: by left position, then by right position. *)
+From Coq Require Import Sorted.
+
+Lemma SS_app {A} (R : A -> A -> Prop) a b :
+  StronglySorted R a -> StronglySorted R b -> (forall x y, In x a -> In y b -> R x y) ->
+  StronglySorted R (a ++ b).
+Proof.
+  induction a as [|x a IH]; intros Ha Hb Hab; simpl; [exact Hb|].
+  inversion Ha as [|x' a' Ha' Hx]; subst. constructor.
+  - apply IH; [exact Ha'|exact Hb|]. intros u v Hu Hv. apply Hab; [right; exact Hu|exact Hv].
+  - apply Forall_app. split; [exact Hx|]. apply Forall_forall. intros y Hy. apply Hab; [left; reflexivity|exact Hy].
+Qed.
+
+Lemma SS_seq s n : StronglySorted lt (seq s n).
+Proof.
+  revert s. induction n as [|n IH]; intros s; simpl; constructor; [apply IH|].
+  apply Forall_forall. intros y Hy. apply in_seq in Hy. lia.
+Qed.
+
+Lemma SS_filter {A} (R : A -> A -> Prop) f l : StronglySorted R l -> StronglySorted R (filter f l).
+Proof.
+  intros H. induction H as [|x l Hl IH Hx]; simpl; [constructor|].
+  destruct (f x); [|exact IH]. constructor; [exact IH|].
+  apply Forall_forall. intros y Hy. apply filter_In in Hy. rewrite Forall_forall in Hx. apply Hx. exact (proj1 Hy).
+Qed.
+
+Lemma SS_map {A B} (f : A -> B) (R : A -> A -> Prop) (R' : B -> B -> Prop) l :
+  (forall x y, R x y -> R' (f x) (f y)) -> StronglySorted R l -> StronglySorted R' (map f l).
+Proof.
+  intros Hf H. induction H as [|x l Hl IH Hx]; simpl; constructor; [exact IH|].
+  apply Forall_forall. intros y Hy. apply in_map_iff in Hy. destruct Hy as [z [<- Hz]].
+  apply Hf. rewrite Forall_forall in Hx. apply Hx. exact Hz.
+Qed.
+
+Lemma SS_flat_map {B} (R' : B -> B -> Prop) (f : nat -> list B) l :
+  StronglySorted lt l -> (forall i, StronglySorted R' (f i)) ->
+  (forall i i' x y, i < i' -> In x (f i) -> In y (f i') -> R' x y) ->
+  StronglySorted R' (flat_map f l).
+Proof.
+  intros Hl Hf Hd. induction Hl as [|i l Hl IH Hi]; simpl; [constructor|].
+  apply SS_app; [apply Hf|exact IH|].
+  intros x y Hx Hy. apply in_flat_map in Hy. destruct Hy as [i' [Hi' Hy]].
+  rewrite Forall_forall in Hi. exact (Hd i i' x y (Hi i' Hi') Hx Hy).
+Qed.
+
+Theorem inner_pairs_sorted {K} (keq : K -> K -> bool) n m lk rk :
+  StronglySorted pair_before (inner_pairs keq n m lk rk).
+Proof.
+  unfold inner_pairs. apply SS_flat_map.
+  - apply SS_seq.
+  - intros i. unfold pair_with. apply (SS_map _ lt).
+    + intros x y Hxy. cbn. right. split; [reflexivity|exact Hxy].
+    + unfold matches_of. apply SS_filter. apply SS_seq.
+  - intros i i' x y Hlt Hx Hy. unfold pair_with in Hx, Hy.
+    apply in_map_iff in Hx. destruct Hx as [j [<- _]].
+    apply in_map_iff in Hy. destruct Hy as [j' [<- _]]. cbn. left. exact Hlt.
+Qed.
+
+Lemma holds_rows_names {V} (L R : table V) T p ps :
+  holds_rows L R T (p :: ps) -> map fst T = map cname L ++ map cname R.
+Proof. intros [H _]. exact H. Qed.
